@@ -92,6 +92,11 @@ def cases(tier, seed):
             for nmol in (1, 2, 3):
                 for rot in ("cube0", "gen0"):
                     out.append({"family": "projection", "tshape": list(ts), "order": order, "nmol": nmol, "rot": rot})
+    # template dtypes (density maps read from integer MRC files, boolean masks): same tomogram as with the float32 template
+    for dt in ("float64", "int16", "uint8", "int8", "bool"):
+        for order in (0, 1, 3):
+            for scale in (1.0, 0.5):
+                out.append({"family": "dtype", "dtype": dt, "order": order, "scale": scale})
     # call histories on one simulator: what simulate / replace / copy / subset return must not depend on earlier calls
     for order in (3, 1, 0):
         out.append({"family": "history", "order": order, "depth": 2 if tier == "quick" else 3})
@@ -108,7 +113,32 @@ def run_case(case):
     import dask
 
     dask.config.set(scheduler="synchronous")
-    return {"paste": _paste, "additivity": _additivity, "clipping": _clipping, "readback": _readback, "projection": _projection, "history": _history}[case["family"]](case)
+    return {"paste": _paste, "additivity": _additivity, "clipping": _clipping, "readback": _readback, "projection": _projection, "history": _history, "dtype": _dtype}[case["family"]](case)
+
+
+def _dtype(case):
+    from scipy.spatial.transform import Rotation
+
+    from acryo import Molecules
+
+    dt, order, scale = case["dtype"], case["order"], case["scale"]
+    base = data.particle_box((7, 7, 7))
+    amp = {"float64": 1.0, "int16": 9000.0, "uint8": 250.0, "int8": 120.0, "bool": 1.0}[dt]
+    t = (base > 0.35) if dt == "bool" else np.round(base / base.max() * amp).astype(dt) if dt != "float64" else base.astype(np.float64)
+    # sub-pixel and rotated poses: interpolated values lie between the integer levels
+    mole = Molecules(np.array([[6.3, 7.0, 8.45], [10.0, 9.6, 5.5]]) * scale, Rotation.from_matrix(np.stack([np.eye(3), data.rot_matrix("gen0")])))
+    shape = (16, 17, 15)
+    out = {}
+    for name, tt in (("typed", t), ("float32", np.asarray(t, dtype=np.float32))):
+        sim = _sim(order, scale)
+        sim.add_molecules(mole, tt)
+        out[name] = [np.asarray(sim.simulate(shape), dtype=np.float64), np.asarray(sim.simulate_2d(shape[1:]), dtype=np.float64)]
+    viol = []
+    for what, a, b in (("simulate", out["typed"][0], out["float32"][0]), ("simulate_2d", out["typed"][1], out["float32"][1])):
+        err = np.abs(a - b).max()
+        if a.shape != b.shape or err > 2e-4 * max(1.0, np.abs(b).max()):
+            viol.append((f"{ID}|dtype|{what}|{'integer' if 'int' in dt else dt}-template|order={order}", f"{dt} template (values up to {float(np.max(t)):.0f}), order {order}, scale {scale}: {what} differs from the float32-template result by {err:.4g} (max {np.abs(b).max():.4g}; mass {a.sum():.5g} vs {b.sum():.5g})"))
+    return {"nontrivial": True, "outcome": f"dtype|{dt}|{'viol' if viol else 'ok'}", "viol": viol}
 
 
 def _history(case):
